@@ -74,6 +74,7 @@ MARKS = MARKS + ["marking-definition--%s" % _g.uuid(4) for i in range(70)]      
 MARK_SIZES = [1, 1, 1, 2, 2, 2, 3, 9, 10, 11, 64, 65]        # both sides of plausible bounds
 FINDING_NAIVE = "C05-naive-datetime-cannot-be-versioned"
 FINDING_MAPPING = "C05-non-dict-mapping-mixed-precision-rules"
+FINDING_FOLD = "C05-fudge-modified-resets-fold"
 
 
 def spec():
@@ -128,6 +129,30 @@ def sdt_fields(v):
     return local // u * u, off
 
 
+ZDT_ZONES = ["Europe/Berlin", "America/New_York", "Australia/Lord_Howe", "Europe/London", "Pacific/Auckland"]
+# UTC instants inside the SECOND reading of a repeated hour (fold=1) of those zones, 2021
+REPEATED_HOURS = [("Europe/Berlin", (2021, 10, 31, 1, 30)), ("America/New_York", (2021, 11, 7, 6, 30)),
+                  ("Australia/Lord_Howe", (2021, 4, 3, 15, 15)), ("Europe/London", (2021, 10, 31, 1, 30)),
+                  ("Pacific/Auckland", (2021, 4, 3, 14, 30))]
+_E = __import__("datetime").datetime(1, 1, 1)
+
+
+def ZDT(us, zone):
+    """the UTC instant `us` as an aware datetime in a zoneinfo zone (fields, zone, fold as Python computes them)"""
+    import datetime as dt
+    import zoneinfo
+    d = (_E + dt.timedelta(microseconds=us)).replace(tzinfo=dt.timezone.utc).astimezone(zoneinfo.ZoneInfo(zone))
+    return {"zdt": [d.year, d.month, d.day, d.hour, d.minute, d.second, d.microsecond, zone, d.fold]}
+
+
+def zdt_fields(v):
+    """(local fields as an instant, true UTC offset, offset for fold=0) of a ZDT value, by the standard library"""
+    y, m, d, hh, mm, ss, us, zone, fold = v["zdt"]
+    o, o0 = c15.zone_offsets([y, m, d, hh, mm, ss, us], zone, fold)
+    local = int(c15.instant(y, m, d, hh, mm, ss, None)) + us
+    return local, o, o0
+
+
 def ts_text(us, digits):
     """canonical text of an instant with `digits` fractional digits (truncating)."""
     import datetime as dt
@@ -146,9 +171,11 @@ def ts_value(rng, us, allow_naive=True, allow_date=False):
         return J(ts_text(us, 6 if us % 1000 else rng.choice([3, 6]) if us % 1000000 else rng.choice([0, 3, 6])))
     if r < 0.75:
         return DT(us, 0)
-    if r < 0.9:
+    if r < 0.85:
         off = rng.choice([19800, -28800, 3600, 45900, -12600]) * 1000000
         return DT(us + off, off)
+    if r < 0.93 and 59958144000000000 < us < 66269664000000000:          # years 1901..2100
+        return ZDT(us, rng.choice(ZDT_ZONES))
     if allow_naive:
         return DT(us, None)
     return DT(us, 0)
@@ -162,6 +189,9 @@ def instant_of_value(v):
         return v["dt"][0] - (v["dt"][1] or 0)
     if "sdt" in v:
         l, o = sdt_fields(v)
+        return l - o
+    if "zdt" in v:
+        l, o, _ = zdt_fields(v)
         return l - o
     if "date" in v:
         return c15.instant(*v["date"], 0, 0, 0, None)
@@ -384,8 +414,15 @@ def gen_chain(rng, case, ty, pred, max_ops, marking_ok=True):
     return ops
 
 
+LAST_ZONE = [None]
+
+
 def base_instant(rng):
     r = rng.random()
+    LAST_ZONE[0] = None
+    if r < 0.08:            # inside the second reading of a repeated hour of a DST zone
+        LAST_ZONE[0], (y, m, d, hh, mm) = rng.choice(REPEATED_HOURS)
+        return int(c15.instant(y, m, d, hh, mm, 0, None)) + rng.choice([0, 1000, 123456])
     if r < 0.7:
         return T2020 + rng.randrange(0, 3650) * DAY + rng.randrange(DAY // 1000000) * 1000000
     if r < 0.8:
@@ -423,6 +460,9 @@ def gen_cases(run, n_chains, max_ops):
         naive = rng.random() < 0.06
         cv = DT(created, None) if naive else ts_value(rng, created, allow_naive=False)
         mv = DT(modified, None) if naive else ts_value(rng, modified, allow_naive=False)
+        if LAST_ZONE[0] and not naive and rng.random() < 0.85:
+            # the version time as an aware datetime of that zone: the second reading of the repeated hour (fold=1)
+            cv, mv = ZDT(created, LAST_ZONE[0]), ZDT(modified, LAST_ZONE[0])
         init[d["created"]][1] = cv
         if "modified" in d:
             init[d["modified"]][1] = mv
@@ -611,6 +651,9 @@ def coq_val(v):
     if "sdt" in v:
         local, off = sdt_fields(v)
         return "(PDt %s (Some %s))" % (common.coq_Z(local), common.coq_Z(off))
+    if "zdt" in v:
+        local, off, _ = zdt_fields(v)
+        return "(PDt %s (Some %s))" % (common.coq_Z(local), common.coq_Z(off))
     if "dt" in v:
         local, off = v["dt"]
         return "(PDt %s %s)" % (common.coq_Z(local), "None" if off is None else "(Some %s)" % common.coq_Z(off))
@@ -723,6 +766,9 @@ def oracle_case_(case, res):
         cur_text_t = ser(ver, instant_of_value(version_time(state)))
     chain_sers = []
     naive_in = any("dt" in v and v["dt"][1] is None for _, v in case["init"])
+    # narrow class of the fold defect: the version time is a zone-aware datetime in the second reading of a repeated
+    # hour (fold=1 and the offset differs from the fold=0 one); the push-ahead arithmetic forgets the fold
+    fold_class = any("zdt" in v and v["zdt"][8] == 1 and zdt_fields(v)[1] != zdt_fields(v)[2] for _, v in case["init"])
 
     def viol(i, what, finding=None):
         sub = dict(case)
@@ -774,7 +820,7 @@ def oracle_case_(case, res):
             new_t = ser(ver, instant_of_value(sget(new, "modified")))
             if new_t is None or old_t is None or not new_t > old_t:
                 viol(i, "modified of the new version (%s us serialized) is not strictly later than the original's (%s us)" % (new_t, old_t),
-                     FINDING_MAPPING if (carrier == "mapping" and supplied is None) else None)
+                     FINDING_MAPPING if (carrier == "mapping" and supplied is None) else FINDING_FOLD if fold_class else None)
             if sup_t is not None and old_t is not None and not sup_t > old_t:
                 viol(i, "a caller-supplied modified time that is not strictly later was accepted")
             if sup_t is not None and new_t != sup_t:
@@ -783,7 +829,7 @@ def oracle_case_(case, res):
             if st["ser"] is not None:
                 if tt is None or (cur_text_t is not None and not tt > cur_text_t):
                     viol(i, "serialized modified %r is not strictly later than the previous version's" % st["ser"],
-                         FINDING_MAPPING if (carrier == "mapping" and supplied is None) else None)
+                         FINDING_MAPPING if (carrier == "mapping" and supplied is None) else FINDING_FOLD if fold_class else None)
                 cur_text_t = tt
             chain_sers.append(new_t)
             state = new
@@ -802,7 +848,7 @@ def oracle_case_(case, res):
         if not b > a:
             out.append(Violation("serialized modified times do not strictly increase along the chain (%s then %s)" % (a, b),
                                  {"case": case, "check": "chain"},
-                                 FINDING_MAPPING if carrier == "mapping" else None))
+                                 FINDING_MAPPING if carrier == "mapping" else FINDING_FOLD if fold_class else None))
             break
     return out
 
@@ -823,13 +869,48 @@ def select_variant(run):
     return "NaiveUtc"
 
 
+FOLD_PROBE = None
+
+
+def fold_probe_case():
+    """the witness of the fold defect: a 2.1 identity whose version time is the second reading of a repeated hour"""
+    m = ZDT(int(c15.instant(2021, 10, 31, 1, 30, 0, None)), "Europe/Berlin")
+    init = [["type", J("identity")], ["spec_version", J("2.1")], ["id", J("identity--311b2d2d-f010-4473-83ec-1edf84858f4c")],
+            ["created", m], ["modified", m], ["name", J("x")]]
+    return {"carrier": "object", "ver": "2.1", "init": init, "allow_custom": False, "ty": "identity", "kind": "versionable",
+            "ops": [{"op": "new", "changes": [["name", J("y")]], "now": int(c15.instant(2021, 10, 30, 0, 0, 0, None)),
+                     "allow_custom": None, "legal": True}]}
+
+
+def select_fold_variant(run):
+    """Does the push-ahead arithmetic keep the instant of a zone-aware value in a repeated hour ("utc"), or does it
+    forget the fold ("fold_reset", the defective variant the model cannot express: such chains are then reported by
+    the oracle and left out of the correspondence)?"""
+    c = fold_probe_case()
+    r = common.run_impl("c05_impl", [c], procs=1)[0]
+    st = (r.get("steps") or [{}])[0]
+    t = instant_of_value(sget(st.get("state") or [], "modified")) if st.get("ok") else None
+    want = int(c15.instant(2021, 10, 31, 1, 30, 0, None)) + 1
+    if t == want:
+        return "utc"
+    if t == want - 3600000000:
+        return "fold_reset"
+    run.broken.append(Broken("correspondence", "fold probe matches neither variant", {"observed": r.get("line", r)}))
+    return "utc"
+
+
+def in_fold_class(case):
+    return any("zdt" in v and v["zdt"][8] == 1 and zdt_fields(v)[1] != zdt_fields(v)[2] for _, v in case["init"])
+
+
 def strip(case):
     return {k: v for k, v in case.items()}
 
 
 def run_cases(run, cases, nm, label):
     impl = common.run_impl("c05_impl", cases)
-    good = [(c, r) for c, r in zip(cases, impl) if "badcase" not in r and c["carrier"] != "mapping"]
+    good = [(c, r) for c, r in zip(cases, impl) if "badcase" not in r and c["carrier"] != "mapping"
+            and not (run.coverage.get("variant_selected", {}).get("push_ahead") == "fold_reset" and in_fold_class(c))]
     bad = [(c, r) for c, r in zip(cases, impl) if "badcase" in r]
     terms = [model_term(c, r["init"], nm) for c, r in good]
     model = eval_by_size(label, terms)
@@ -934,7 +1015,7 @@ def check(run):
     if src is not None:
         probe_source(run, src)
     nm = select_variant(run)
-    run.coverage["variant_selected"] = {"naive_mode": nm}
+    run.coverage["variant_selected"] = {"naive_mode": nm, "push_ahead": select_fold_variant(run)}
     cases = gen_cases(run, n_chains, max_ops)
     hist = {}
     try:
